@@ -2,6 +2,7 @@
 package metadata
 
 import (
+	"bytes"
 	"encoding/json"
 	"math/rand"
 	"testing"
@@ -19,19 +20,63 @@ type input struct {
 
 type mirror struct {
 	input
-	Impl bool `json:"impl"`
+	Impl   bool `json:"impl"`
+	Intact bool `json:"intact"`
 }
 
 func run(in input) emit.Case {
 	m := metadata.NewManager(in.H, in.F, in.T)
-	got := metadata.HasConflictingPrefixes(m, in.VM)
-	coq := emit.App("mk", emit.Bytes(in.H), emit.Bytes(in.F), emit.Bytes(in.T), emit.BytesList(in.VM), emit.Bool(got))
+	// The caller's slice is a view of a larger array (spare capacity, as a registry validated incrementally has):
+	// the answer must depend on the view only and the call must leave the whole array as it found it.
+	n := len(in.VM)
+	backing := make([][]byte, n+4)
+	for i := range backing {
+		if i < n {
+			backing[i] = append([]byte{}, in.VM[i]...)
+		} else {
+			backing[i] = []byte{0xf0 + byte(i-n), 0xee}
+		}
+	}
+	snapshot := func() [][]byte {
+		c := make([][]byte, len(backing))
+		for i := range backing {
+			c[i] = append([]byte{}, backing[i]...)
+		}
+		return c
+	}
+	before := snapshot()
+	got := metadata.HasConflictingPrefixes(m, backing[:n])
+	intact := true
+	for i := range backing {
+		if !bytes.Equal(before[i], backing[i]) {
+			intact = false
+		}
+	}
+	// same view again, and every shorter view, against a call on a freshly allocated exact-capacity copy
+	for k := 0; k <= n && intact; k++ {
+		fresh := make([][]byte, k)
+		for i := 0; i < k; i++ {
+			fresh[i] = append([]byte{}, in.VM[i]...)
+		}
+		if metadata.HasConflictingPrefixes(m, backing[:k]) != metadata.HasConflictingPrefixes(m, fresh) {
+			intact = false
+		}
+	}
+	if intact && metadata.HasConflictingPrefixes(m, backing[:n]) != got {
+		intact = false
+	}
+	for i := range backing {
+		if !bytes.Equal(before[i], backing[i]) {
+			intact = false
+		}
+	}
+	coq := emit.App("mk", emit.Bytes(in.H), emit.Bytes(in.F), emit.Bytes(in.T), emit.BytesList(in.VM), emit.Bool(got), emit.Bool(intact))
 	nontrivial := len(in.VM) >= 1
 	kind := "noconflict"
 	if got {
 		kind = "conflict"
 	}
-	return emit.Case{Coq: coq, JSON: mirror{in, got}, Nontrivial: nontrivial, Kind: kind, Sig: "prefix-conflict-answer-wrong"}
+	return emit.Case{Coq: coq, JSON: mirror{in, got, intact}, Nontrivial: nontrivial, Kind: kind, Sig: "prefix-conflict-answer-wrong"}
 }
 
 func randBytes(r *rand.Rand, maxLen int, alphabet int) []byte {
